@@ -124,7 +124,11 @@ CHECKS.update({
     'C20': ("proof", "Coq theorems about limit_results for ANY allocation-request type and ANY random.sample / random.shuffle meeting their "
             "contracts (hypotheses of the theorems): limit=N yields exactly min(N,M) distinct requests of the unlimited result with covering "
             "summaries; randomised unlimited result is a permutation; without randomisation a limited answer is the prefix of the unlimited "
-            "list. Tie: the real limit_results function is executed on generated inputs (random patched to a deterministic sample/shuffle "
+            "list. For the candidate-search model (C20_code_limit, C20_code_limit_reachable): whatever the search returns, limited, is the "
+            "prefix of the unlimited list with min(N,M) entries, pairwise distinct as requests, with covering summaries that are among the "
+            "unlimited ones - in every reachable state. Found by that proof and recorded as a known finding: below 1.34 requests differing "
+            "only in their (not yet shown) mappings are identical entries, so 'distinct' fails as far as the client can see "
+            "(C20_shown_duplicates_below_134; confirmed on the application). Tie: the real limit_results function is executed on generated inputs (random patched to a deterministic sample/shuffle "
             "mirrored in Coq); oracle: every limit 1..M+1 x both config settings x seeds over HTTP; run-to-run order determinism is monitored "
             "only (labelled).",
             "6 C20", "Trusted: kernel; sample_contract / shuffle_contract are explicit hypotheses (CPython random); the order of the unlimited "
@@ -189,7 +193,7 @@ CHECKS.update({
             "are proved invariants), one on the query (each class once in the unsuffixed group) is derived for accepted query strings. "
             "Also: every provider named by a candidate exists, every supplying provider has the summary derived from the stored state, "
             "one row per (provider, class); for the specification's candidates amounts add up and groups are placed in full. Not "
-            "covered by theorems: claims below 1.28; KeyError / order-dependent answers (no list returned - recorded C03/C15 findings). "
+            "covered by theorems: KeyError / order-dependent answers (no list returned - recorded C03/C15 findings). "
             "The check claims up to 12 candidates of every answer on the real application (PUT /allocations for a new consumer at the "
             "query's microversion -> 204) and recomputes amounts, mappings and provider summaries from the stored tables.",
             "6 C02", SEQ_NOTE,
